@@ -11,3 +11,64 @@ Theorem C09_registration_after_deadline_refused :
   forall st players, r_status (rs_reg st) = 2 -> add_players st players = (st, RErrAfterDeadline).
 Proof. exact add_after_deadline_refused. Qed.
 Print Assumptions C09_registration_after_deadline_refused.
+
+(* The regulator together with tables that follow its instructions, as a state machine (ProofsReg.v):
+     SRegister choices players : AddPlayers(players), new players only; the callbacks are carried out (a
+                                 requested table is opened with the players given, assigned players sit down)
+     SStatus choices s         : SetStatus(s)
+     SSync id out              : `out` players of table id are eliminated, the table calls SyncState(id, out)
+                                 and carries out the answer: players handed to it sit down, the number it is
+                                 asked to release leave the table (they are "in transit"), a table told to
+                                 break releases everybody and disappears
+     SRelease choices k        : the first k players in transit are handed back with ReleasePlayers
+   `choices` is the order in which the Go map of tables happens to be iterated by the dispatches of the call.
+   s_alive is the list of registered players that have not been eliminated. *)
+From Coq Require Import Permutation Lia.
+From PF Require Import ProofsReg.
+
+Theorem C09_every_player_in_exactly_one_place :
+  forall mx mn ops, 0 < mx ->
+    let s := sys_run (sys_init mx mn) ops in
+    let r := rs_reg (s_st s) in
+    (* the waiting queue, the tables and the players in transit together hold every living player ... *)
+    Permutation (r_queue r ++ members (s_tabs s) ++ s_transit s) (s_alive s) /\
+    (* ... exactly once: nobody is duplicated, nobody is dropped *)
+    NoDup (s_alive s) /\
+    (* the regulator's player total, table count and per-table player counts are the real numbers *)
+    r_pc r = zn (length (s_alive s)) /\
+    r_tc r = zn (length (s_tabs s)) /\
+    Forall2 (fun t m => t_id t = fst m /\ t_pc t = zn (length (snd m))) (r_tables r) (s_tabs s).
+Proof.
+  intros mx mn ops Hmx s r. destruct (SysInv_run mx mn ops Hmx) as [[A B C D E N F] _]. fold s in A, B, C, D, E, N, F. fold r in A, B, C, D, E, F.
+  split; [exact E|]. split; [exact N|]. split; [exact F|]. split; [|exact A].
+  rewrite B. f_equal. apply (Tcons_length _ _ A).
+Qed.
+Print Assumptions C09_every_player_in_exactly_one_place.
+
+(* one step of that machine from any state satisfying the invariant, with any iteration order *)
+Theorem C09_step_preserves : forall s o, SysInv s -> SysInv (sys_step s o).
+Proof. exact SysInv_step. Qed.
+Print Assumptions C09_step_preserves.
+
+(* a table never is asked to release more players than it has, and never a negative number *)
+Theorem C09_release_count_within_table :
+  forall st ts transit alive alive' id out m,
+    quiet st -> Sys (rs_reg st) ts transit alive -> 0 < r_max (rs_reg st) ->
+    lookup id ts = Some m -> (out <= length m)%nat -> Permutation alive (firstn out m ++ alive') ->
+    let res := sync_state st id (zn out) in
+    let rel := snd (fst (fst res)) in
+    0 <= rel <= zn (length (skipn out m ++ snd (fst res))).
+Proof.
+  intros st ts transit alive alive' id out m Hq HS Hm Hl Ho Hal res rel.
+  destruct (Sys_sync st ts transit alive alive' id out m Hq HS Hm Hl Ho Hal) as (_ & _ & H). fold res in H. fold rel in H.
+  destruct (find_table id _).
+  - apply H.
+  - destruct H as (H1 & H2 & _). rewrite H2, app_nil_r, H1. unfold zn. lia.
+Qed.
+Print Assumptions C09_release_count_within_table.
+
+(* non-vacuity: a history with a registration batch, the start, eliminations, a release and a break *)
+Example C09_example :
+  let s := sys_run (sys_init 4 2) [SRegister [] [1; 2; 3; 4; 5; 6; 7]; SStatus [] 1; SSync 1 2; SSync 2 1; SRelease [] 5; SSync 1 0] in
+  (length (s_alive s) = 4)%nat /\ r_pc (rs_reg (s_st s)) = 4.
+Proof. vm_compute. split; reflexivity. Qed.
